@@ -77,7 +77,7 @@ PROBES = [
     "filter_with_cacheable_nodes_evaluated", "reuse_depth_ge_100", "preempted_inside_compile", "preempted_inside_filter",
     "abandoned_mid_filter", "cancel_inside_evaluation", "repurge_between_regex_calls", "same_query_two_docs_midflight",
     "preempt_same_file_two_threads", "compiled_many_other_texts", "short_lived_documents", "filter_raised_type_error",
-    "foreign_environment_in_process", "sync_use_between_suspended_tasks",
+    "foreign_environment_in_process", "sync_use_between_suspended_tasks", "refused_text_on_shared_environment",
 ]
 _SCRATCH_ENV = tripwire.register(jsonpath.JSONPathEnvironment())
 tripwire.register(jsonpath.DEFAULT_ENV)  # a constant, stateless addition to the module-level environment
@@ -373,8 +373,17 @@ class World:
         self.pristine: Dict[Tuple[str, int], Any] = {}
         for qi, t in enumerate(self.texts):
             for e, env in self.envs.items():
-                c = env.compile(t)
-                self.pristine[(e, qi)] = env.compile(t)
+                try:
+                    c = env.compile(t)
+                    self.pristine[(e, qi)] = env.compile(t)
+                except Exception as ex:  # noqa: BLE001
+                    # the text compiled when the workload was generated (another environment, same options)
+                    raise Violation(
+                        "C09.recompile",
+                        f"compiling {t!r} on environment {e} raised {type(ex).__name__}: {ex}; the same text compiled on another "
+                        f"environment with the same options when this run was generated",
+                        f"C09.recompile:raise:{type(ex).__name__}",
+                    ) from None
                 self.compiled[(e, qi)] = c
                 self.compiled_str[(e, qi)] = str(c)
                 self.compiled_sel[(e, qi)] = self._selinfo(c)
@@ -723,6 +732,15 @@ def _sync_op(w: World, ctx: Ctx, cid: int, op: List[Any], yield_point: Any = Non
         env = w.envs[e]
         base = ctx.seed % 1000
         for k in range(n):
+            if k % 3 == 1:
+                # a text the environment refuses, given up on at some depth inside a filter: whatever the parser
+                # was in the middle of must not be there for the next text
+                bad = [f"$.k{k}[?@.v == ]", f"$[?@.a[?@.b == {k} && ]]", f"$[?(@.a == {k}", f"$[?nosuch{k}(@.a)]", f"$.k{k}[?@.a[?@.b[?@.c ==]]]"][(k // 3) % 5]
+                try:
+                    env.compile(bad)
+                except Exception:  # noqa: BLE001
+                    ctx.count("probe.refused_text_on_shared_environment")
+                continue
             text = f"$.k{base}_{cid}_{k}[?@.v == {k}]" if k % 3 == 0 else f"$.k{base}_{cid}_{k}"
             try:
                 env.compile(text)
